@@ -307,7 +307,11 @@ func compare(s *Script, r *Result) []Diff {
 	add := func(obs, class, f string, a ...any) { ds = append(ds, Diff{obs, class, fmt.Sprintf(f, a...)}) }
 	d, p := r.DirectB, r.ProxyB
 	if p.Calls != d.Calls {
-		add("backend-calls", nClass(s), "back-end handler invoked %d times through larking, %d times directly", p.Calls, d.Calls)
+		add("backend-calls", nClass(s), "back-end handler invoked %d times through larking, %d times directly (proxied client saw: responses %v, status %s %q)",
+			p.Calls, d.Calls, r.ProxyC.Responses, codes.Code(r.ProxyC.Code), r.ProxyC.Msg)
+		if p.Calls == 0 {
+			return ds // the call never reached the back-end: everything else follows from that
+		}
 	}
 	if p.Calls >= 1 && d.Calls == 1 {
 		di, pi := d.Inv[0], p.Inv[0]
